@@ -1,0 +1,7 @@
+//go:build !verif
+
+package parse
+
+// verifYield is a scheduling hook for verification builds (-tags verif); it does
+// nothing in normal builds.
+func verifYield(point, file string, depth int) {}
